@@ -19,7 +19,8 @@ use serde::{Deserialize, Serialize};
 
 pub type V = Vec<i64>;
 /// Poll log shared by all doubles of a case: (source id, answer).
-/// id >= 1 scripted upstream, 0 inner stream made by a closure, -1 future made by a closure.
+/// id >= 1 scripted upstream, 0 inner stream made by a closure, -j the j-th future made by a
+/// closure in the current case.
 pub type Log = Rc<RefCell<Vec<(i64, V)>>>;
 
 pub fn pend() -> V {
@@ -223,8 +224,14 @@ impl Iterator for SIter {
 }
 impl std::iter::FusedIterator for SIter {}
 
-/// Scripted future made by the `afm` / `afn` closures (id -1): `pends` Pending answers, then `out`.
+// Scripted future made by the `afm` / `afn` closures (id -j): `pends` Pending answers, then `out`.
+thread_local! {
+    /// futures made by closures so far in the current case (reset by `build_root`)
+    static FUTURES_MADE: std::cell::Cell<i64> = const { std::cell::Cell::new(0) };
+}
+
 pub struct SFut {
+    id: i64,
     pends: usize,
     out: Option<Option<V>>,
     log: Log,
@@ -235,12 +242,12 @@ impl Future for SFut {
         let me = self.get_mut();
         if me.pends > 0 {
             me.pends -= 1;
-            me.log.borrow_mut().push((-1, pend()));
+            me.log.borrow_mut().push((-me.id, pend()));
             cx.waker().wake_by_ref();
             return Poll::Pending;
         }
         let o = me.out.take().expect("harness: future polled after completion");
-        me.log.borrow_mut().push((-1, o.clone().unwrap_or_else(|| vec![-3])));
+        me.log.borrow_mut().push((-me.id, o.clone().unwrap_or_else(|| vec![-3])));
         Poll::Ready(o)
     }
 }
@@ -480,7 +487,11 @@ pub fn build(nd: &Node, scripts: &[Vec<V>], hm: u8, log: &Log) -> Result<Any, St
         }
         "filter_map_async" => un!(ch, |c| c.filter_map_async(move |v| {
             let (pends, out) = fut_of(&f, v);
-            SFut { pends, out: Some(out), log: lg.clone() }
+            let id = FUTURES_MADE.with(|c| {
+                c.set(c.get() + 1);
+                c.get()
+            });
+            SFut { id, pends, out: Some(out), log: lg.clone() }
         })),
         "compat" => Any::N(bx(pull::stream(pull::stream_compat(ch.weak())))),
         other => return Err(format!("unknown kind {other}")),
@@ -545,6 +556,7 @@ pub enum Root {
 }
 
 pub fn build_root(nd: &Node, scripts: &[Vec<V>], hm: u8, log: &Log) -> Result<Root, String> {
+    FUTURES_MADE.with(|c| c.set(0));
     if !is_future(&nd.k) {
         let a = build(nd, scripts, hm, log)?;
         let fused = a.is_fused();
